@@ -66,8 +66,20 @@ func main() {
 		list    = flag.Bool("list", false, "list obligations")
 		noMut   = flag.Bool("nomutants", false, "thorough without the sensitivity self-test")
 		replayF = flag.String("replay", "", "replay file: re-evaluate the obligation it names")
+		survey  = flag.String("survey", "", "write a generic mutation survey to this file (measurement, not a check)")
+		surveyN = flag.Int("survey-limit", 0, "limit the number of survey mutants (0 = all)")
+		par     = flag.Int("par", 8, "parallel children for the survey")
 	)
 	flag.Parse()
+	if *survey != "" {
+		abs, _ := filepath.Abs(*repo)
+		runSurvey(abs, *survey, *par, *surveyN)
+		return
+	}
+	if *prop == "ALL" && *child {
+		runAllChild(*repo)
+		return
+	}
 	start := time.Now()
 	if *replayF != "" {
 		b, err := os.ReadFile(*replayF)
@@ -403,4 +415,26 @@ func firstLine(s string) string {
 		return s[:i]
 	}
 	return s
+}
+
+// runAllChild evaluates every property's host rules on ONE loaded program and prints the failed obligations.
+func runAllChild(repo string) {
+	abs, _ := filepath.Abs(repo)
+	var failed []Obligation
+	p, err := LoadProg(abs, "", "")
+	if err != nil {
+		failed = append(failed, Obligation{Rule: "ALL.R0", Key: "ALL.R0:load-failure", Fact: "loads", Detail: err.Error()})
+	} else {
+		for _, id := range sortedKeys(registry) {
+			c := newCtx(id, p)
+			registry[id].Run(c)
+			for _, o := range c.Obs {
+				if !o.OK {
+					failed = append(failed, o)
+				}
+			}
+		}
+	}
+	b, _ := json.Marshal(childOut{Failed: failed})
+	fmt.Println("CHILD-RESULT " + string(b))
 }
